@@ -855,6 +855,9 @@ func dbxStarts(w int64) [][]string {
 		{"app/s1/F+1/f", "app/s1/F+160/f", "compact", "app/s1/F+160/f", "compact", "app/s1/F+160/f", "compact", "app/s1/F+160/f", "compact"},
 		{"app/s1/F+1/f", "app/s2/F+1/f", "app/s1/F+160/f", "compact", "del/all/F-1/F+1", "app/s1/F+1/f", "del/s1/B-R/B-1"},
 		{"app/s1/F+1/h", "app/s1/F+1/h", "app/s1/F+1/fh", "app/s1/F+1/st", "app/s1/F+1/f", "mmap"},
+		// a sample exactly on a block boundary, deleted by an interval ENDING on that boundary, and
+		// enough later data that the next head compaction cuts the head exactly there
+		{"app/s1/F+1/f", "app/s2/F+1/f", "app/s1/B+0/f", "del/s1/B-R-1/B-R", "app/s1/F+160/f", "cmphead"},
 	}
 	if w > 0 {
 		st = append(st,
